@@ -312,8 +312,11 @@ class Model:
         for b in bases:
             pybases.append({'ABC': 'abc.ABC'}.get(b, b))
         if kind == 'enum':
-            pybases = pybases + ['enum.Enum'] if 'enum.Enum' not in pybases else pybases
-            if s.get('strmixin'):
+            if s.get('enumvals') == 'int':
+                pybases = pybases + ['enum.IntEnum']
+            else:
+                pybases = pybases + ['enum.Enum'] if 'enum.Enum' not in pybases else pybases
+            if s.get('strmixin') or s.get('enumvals') == 'strempty':
                 pybases = ['str'] + pybases       # the common `class Level(str, enum.Enum)` idiom
         if kind == 'str':
             base = s.get('strbase', 'yatiml.String')
@@ -322,8 +325,10 @@ class Model:
         lines = [f'class {name}({", ".join(pybases)}):' if pybases else f'class {name}:']
         body = []
         if kind == 'enum':
-            for m in s['members']:
-                body.append(f'    {m} = {m!r}')
+            for mi, m in enumerate(s['members']):
+                # member VALUES are irrelevant to YAML (members are written and read by name): falsy and non-string values too
+                val = {'int': repr(mi), 'strempty': repr('' if mi == 0 else m), 'none-first': ('None' if mi == 0 else repr(m))}.get(s.get('enumvals'), repr(m))
+                body.append(f'    {m} = {val}')
         elif kind == 'str':
             bad = s.get('str', ('ok',))
             body.append('    def __init__(self, s: str) -> None:')
